@@ -14,6 +14,18 @@ def be(v, width):
     if isinstance(v, int):
         return v.to_bytes(width, 'big')
     t = to_term(v)
+    from pyvc.values import digits_hint
+    octs = digits_hint(t, width)
+    if octs is not None:
+        def at_h(i, octs=octs):
+            if z3.is_int_value(i):
+                k = i.as_long()
+                return octs[k] if 0 <= k < len(octs) else z3.IntVal(0)
+            e = z3.IntVal(0)
+            for k in range(len(octs) - 1, -1, -1):
+                e = z3.If(i == k, octs[k], e)
+            return e
+        return SBytes(width, at_h)
 
     def at(i, t=t, w=width):
         if z3.is_int_value(i):
